@@ -240,7 +240,12 @@ func proveLemmaPart(prog *Prog, specs *Specs, l *Lemma, tier string, c *checkCtx
 		if r := recover(); r != nil {
 			u, ok := r.(unsupported)
 			if !ok {
-				panic(r)
+				// the contract no longer binds to the code (renamed or re-shaped function, changed signature)
+				res = nil
+				for i := range l.Ensures {
+					res = append(res, OblResult{Name: name(i), Status: "unbound", Detail: fmt.Sprint(r), Lemma: l, Kind: "lemma", Site: l.Ensures[i]})
+				}
+				return
 			}
 			res = nil
 			for i := range l.Ensures {
